@@ -1,13 +1,13 @@
 """E-truthy (lifted WHERE decision tables) and S-cmpsort (compare_sql_values) - Kani, in place, select::filter mount."""
 NAME = 'E-truthy'
-PROPERTIES = ['C06', 'C09', 'C08']
+PROPERTIES = ['C06', 'C09', 'C08', 'C07']
 ENGINE = 'kani'
 CLASS = 'C'
 CRATE = 'vibesql-executor'
 MODULE = 'select::filter::verif_kani_select'
 UNWIND = 4
 HARNESS_FILE = 'kani/executor/select_k.rs'
-DOC = ('every site that turns a WHERE value into keep/drop (six inline match tables, lifted mechanically, plus is_truthy_basic which UPDATE/DELETE now call) '
+DOC = ('every site that turns a WHERE / HAVING value into keep/drop (seven inline match tables, lifted mechanically - six WHERE sites and the HAVING table of execute_with_aggregation - plus is_truthy_basic which UPDATE/DELETE now call) '
        'makes the same decision as is_truthy_combined on every boolean/NULL/numeric value; compare_sql_values is a total preorder with NULL greatest')
 _S = 'crates/vibesql-executor/src/select/'
 FUNCTIONS = [
@@ -17,8 +17,8 @@ FUNCTIONS = [
 ]
 
 
-def _frag(sig_name, scrut):
-    return dict(kind='match', index=0, expect_scrutinee=scrut, scrutinee='v',
+def _frag(sig_name, scrut, index=0):
+    return dict(kind='match', index=index, expect_scrutinee=scrut, scrutinee='v',
                 sig='pub(crate) fn %s(v: vibesql_types::SqlValue) -> Result<bool, ExecutorError>' % sig_name, wrap='Ok(%s)')
 
 
@@ -35,6 +35,9 @@ LIFT = dict(out='kani/executor/lifted_gen.rs', items={
                                                fragment=_frag('lifted_apply_where_filter_zerocopy', 'evaluator.eval(&combined_where, row_ref)?')),
     'lifted_apply_where_filter_zerocopy_parallel': dict(file=_S + 'scan/index_scan/execution.rs', path='fn apply_where_filter_zerocopy_parallel',
                                                         fragment=_frag('lifted_apply_where_filter_zerocopy_parallel', 'thread_evaluator.eval(&where_expr_arc, row_ref)?')),
+    # the HAVING decision table of execute_with_aggregation (4th match of the function)
+    'lifted_having': dict(file=_S + 'executor/aggregation/mod.rs', path="impl SelectExecutor<'_>::fn execute_with_aggregation",
+                          fragment=_frag('lifted_having', 'having_result', 3)),
 })
 _T = ['C06', 'C09']
 HARNESSES = {
@@ -45,6 +48,7 @@ HARNESSES = {
     'e_truthy_predicates_parallel': dict(fn='apply_predicates_parallel/match#0', clause='same_decision_as_reference', props=_T),
     'e_truthy_index_scan': dict(fn='apply_where_filter_zerocopy/match#0', clause='same_decision_as_reference', props=_T),
     'e_truthy_index_scan_parallel': dict(fn='apply_where_filter_zerocopy_parallel/match#0', clause='same_decision_as_reference', props=_T),
+    'e_truthy_having': dict(fn='execute_with_aggregation/match#3 (HAVING)', clause='same_decision_as_reference', props=['C06', 'C07']),
     's_cmpsort_null_null_equal': dict(fn='compare_sql_values', clause='null_null_equal', props=['C08']),
     'k_canary_must_fail': dict(fn='canary', clause='must_fail', canary=True),
 }
